@@ -117,6 +117,12 @@ def cast_scalar(interp, st, dt, v):
         v = V.num_of_bool(v)
         if is_sym(v) and z3.is_int(v):
             return z3.ToReal(v)
+        if interp.narrow is not None and is_sym(v):
+            if name == "float64":
+                return interp.widen(v)
+            if not interp.is_narrow(v) and isinstance(v, z3.ExprRef):
+                v = type(v)(v.ast, v.ctx)
+                interp.narrow[id(v)] = v
         return v
     if name == "bool":
         return interp.A.truthy(v)
